@@ -19,7 +19,7 @@ _ACGT = "ACGT"
 # ---------------------------------------------------------------------------
 
 
-def gen_scaffolds(rng, bpt, fasta_backed=True, n=None, hap_prefix=None):
+def gen_scaffolds(rng, bpt, fasta_backed=True, n=None, hap_prefix=None, edge_gaps_ok=True):
     """List of {"name", "rows"}; rows are ["F", contig, start, end, strand] or
     ["G", length, type].  FASTA-backed scaffolds consist of forward fragments
     of the record itself separated by 'scaffold' gaps and begin and end with a
@@ -38,6 +38,12 @@ def gen_scaffolds(rng, bpt, fasta_backed=True, n=None, hap_prefix=None):
         rows = []
         pos = 0
         ncontig = 0
+        edge_gaps = fasta_backed and edge_gaps_ok and rng.random() < 0.25
+        if edge_gaps and rng.random() < 0.7:
+            g = rng.choice([1, 3, 10, 25])
+            rows.append(["G", g, "scaffold"])  # the record begins with a run of N
+            pos += g
+            target += g
         while pos < target:
             L = min(target - pos, max(1, int(rng.choice([0.3, 0.8, 1.5, 2.5, 4, 7]) * bpt) + rng.randint(0, 5)))
             ncontig += 1
@@ -53,6 +59,8 @@ def gen_scaffolds(rng, bpt, fasta_backed=True, n=None, hap_prefix=None):
                 if g > 0:
                     rows.append(["G", g, "scaffold"])
                     pos += g
+        if edge_gaps and rng.random() < 0.6:
+            rows.append(["G", rng.choice([1, 2, 7, 30]), "scaffold"])  # ... or ends with one
         out.append({"name": name, "rows": rows})
     return out
 
@@ -328,7 +336,7 @@ def gen_assembly_and_map(rng):
         w = gen_workload(rng, fasta_backed=rng.random() < 0.5, tagging=rng.random() < 0.6)
         if w is not None:
             break
-    asm = parse_tpf(io.StringIO(w["tpf"]), "input")
+    asm = parse_agp(io.StringIO(w["agp"]), "input")  # (AGP can carry a scaffold that begins with a gap)
     prtxt = parse_agp(io.StringIO(w["pretext_agp"]), "pretext")
     desc = f"bpt={w['bpt']} scaffolds={[(s['name'], scaffold_length(s)) for s in w['scaffolds']]} groups={[[tuple(p[:4]) + (tuple(p[4]),) for p in g['pieces']] for g in w['map']['groups']]}"
     return asm, prtxt, desc
